@@ -111,8 +111,9 @@ class DecHooks(QHooks):
 
 class HopHooks(QHooks):
     """blast() over byte strings drawn from the letters of received/delivered (both cases), CR, LF, "." and another byte:
-    *hops against the documented count (header lines starting, in any case, with "received" or "delivered"; the header
-    ends at the first empty line)"""
+    *hops against the documented count: the header lines OF THE MESSAGE AS IT IS STORED that start, in any case, with "received"
+    or "delivered" (the header ends at the first empty line).  A line's leading dot is removed by the decoder, so it is not part
+    of the line the count is about: ".Received: x" on the wire is the field "Received: x" in the queue."""
     ALPHA = sorted(set(ord(c) for c in 'receivdlRECEIVDL') | {13, 10, 46, ord('x')})
     CAP = 2
 
@@ -129,7 +130,7 @@ class HopHooks(QHooks):
         return True
 
     def ghost(self, E):
-        return g1(E, '$gh', (1, '', 0))      # (in header, line prefix (<= 9 bytes, lower case), hops)
+        return g1(E, '$gh', (1, '', 0, 0))      # (in header, line prefix (<= 9 bytes, lower case), hops, this line's leading dot was dropped)
 
     def prim_substdio_get(self, E, x, args):
         self.reads += 1
@@ -141,7 +142,7 @@ class HopHooks(QHooks):
                 chp = a[1]
         if chp is None:
             raise AnalysisBroken('blast(): substdio_get target is not an object address')
-        inh, pre, hops = self.ghost(E)
+        inh, pre, hops, dotted = self.ghost(E)
         got = g1(E, 'HOPS')
         if isinstance(got, int) and got > hops:
             # counted more than the documented number: wrong whether the counter is stored eagerly or only at the end
@@ -157,35 +158,39 @@ class HopHooks(QHooks):
             if k >= len(tail):
                 return 'noreturn'
             b = tail[k]
-            i2, p2 = inh, pre
+            i2, p2, d2 = inh, pre, dotted
             if inh:
-                if len(p2) < 9:
+                if b == 46 and p2 == '' and not d2:
+                    d2 = 1
+                elif len(p2) < 9:
                     p2 = p2 + chr(b)
                     if p2 == '\r\n':
                         i2 = 0
                 if b == 10:
-                    p2 = ''
+                    p2, d2 = '', 0
             if not i2:
                 p2 = ''
-            return [Outcome(ret=fs(1), sets={chp: fs(b), '$gh': fs((i2, p2, hops)), '$tail': fs(k + 1)}, log='closing byte %r' % chr(b))]
+            return [Outcome(ret=fs(1), sets={chp: fs(b), '$gh': fs((i2, p2, hops, d2)), '$tail': fs(k + 1)}, log='closing byte %r' % chr(b))]
         outs = []
         for b in self.ALPHA:
-            i2, p2, h2 = inh, pre, hops
+            i2, p2, h2, d2 = inh, pre, hops, dotted
             if inh:
-                if len(p2) < 9:
+                if b == 46 and p2 == '' and not d2:
+                    d2 = 1          # the leading dot of a wire line: the decoder drops it (or it is the terminator's)
+                elif len(p2) < 9:
                     p2 = p2 + chr(b).lower()
                     if p2 == 'received' or p2 == 'delivered':
                         h2 += 1
                     if p2 == '\r\n':
                         i2 = 0
                 if b == 10:
-                    p2 = ''
+                    p2, d2 = '', 0
                 # prefixes that can no longer match anything are equivalent: normalise (keeps the state space small)
                 if p2 and not ('received'.startswith(p2) or 'delivered'.startswith(p2) or '\r\n'.startswith(p2)) and len(p2) < 9:
                     p2 = p2[:0] + '#' * len(p2)
             if not i2:
                 p2 = ''
-            outs.append(Outcome(ret=fs(1), sets={chp: fs(b), '$gh': fs((i2, p2, h2))}, log='input byte %r' % chr(b)))
+            outs.append(Outcome(ret=fs(1), sets={chp: fs(b), '$gh': fs((i2, p2, h2, d2))}, log='input byte %r' % chr(b)))
         return outs
 
     def prim_put(self, E, x, args):
@@ -198,7 +203,7 @@ class HopHooks(QHooks):
         if fn.name != 'blast':
             return
         self.returns += 1
-        inh, pre, hops = self.ghost(E)
+        inh, pre, hops, dotted = self.ghost(E)
         got = g1(E, 'HOPS')
         self.maxhops = max(self.maxhops, hops)
         if got != hops and self.bad is None:
